@@ -10,7 +10,7 @@ PLAN = {
         {"name": "AcceptBlock_unrequested", "kind": "frag", "file": "src/validation.cpp",
          "within": r"bool ChainstateManager::AcceptBlock\([^)]*\)",
          "begin": r"bool fAlreadyHave = ", "end": r"const CChainParams& params\{GetParams\(\)\};", "include_end": False,
-         "prologue": "int AcceptBlock_unrequested(CBlockIndex* pindex, bool fRequested, const CBlockIndex* tip, int active_height, u256 min_work)\n{",
+         "prologue": "int AcceptBlock_unrequested(CBlockIndex* pindex, bool fRequested, bool min_pow_checked, const CBlockIndex* tip, int active_height, u256 min_work)\n{",
          "epilogue": "    return 2; /* fall through: CheckBlock / ContextualCheckBlock / WriteBlock follow */\n}",
          "rules": [
              R("ghost:ActiveTip()->nChainWork", r"ActiveTip\(\)->nChainWork", "tip->nChainWork", False),
@@ -26,7 +26,8 @@ PLAN = {
     ],
     "native": {"src": "replay.cpp", "c_src": "native_slices.c", "c_lang": "c++", "libs": ["libbitcoin_consensus.a", "libbitcoin_crypto.a"]},
     "not_covered": ["that the fall-through path leads to WriteBlock and the early exits do not (glue: the statements after the fragment)", "requested redelivery histories"],
-    "assumptions": ["ActiveTip(), ActiveHeight(), MinimumChainWork() are ghost inputs with the relation tip == NULL <=> active_height == -1, tip != NULL => active_height == tip->nHeight (CChain::Height/Tip)",
+    "assumptions": ["the enclosing function's other scalar parameter (min_pow_checked) is a ghost input of the fragment, so a new dependency on it is judged by the contract",
+                    "ActiveTip(), ActiveHeight(), MinimumChainWork() are ghost inputs with the relation tip == NULL <=> active_height == -1, tip != NULL => active_height == tip->nHeight (CChain::Height/Tip)",
                     "the fragment is the contiguous statement range of ChainstateManager::AcceptBlock from `bool fAlreadyHave =` up to `const CChainParams& params{GetParams()};`"],
     "manifest": {
         "category": "proof",
